@@ -92,9 +92,12 @@ class Recorder:
         # a hook is free to return something (e.g. the value it displayed); that must not influence the block
         return value if self.returns_value else None
 
+    def __wrapped__(self, value):  # what functools.wraps leaves on a decorated hook: NOT where displayed values go
+        self.delivered.append(("delivered-to-__wrapped__", value))
+
 
 # ------------------------------------------------------------------ program generation
-VALUE_KINDS = ["none", "ellipsis", "text", "num", "tag", "taglist", "html", "dep", "meta", "tf", "obj", "tfobj", "list", "badlist", "bad", "reprraise", "emptystr"]
+VALUE_KINDS = ["inst_repr", "inst_tagify", "inst_none", "none", "ellipsis", "text", "num", "tag", "taglist", "html", "dep", "meta", "tf", "obj", "tfobj", "list", "badlist", "bad", "reprraise", "emptystr"]
 
 
 def rand_value(rng):
@@ -128,6 +131,8 @@ def rand_value(rng):
         return {"k": "list", "t": rng.choice(["list", "tuple"]), "c": [{"k": "text", "s": "v1"}, gen.TAG("i", ws=False), {"k": "bad", "t": "object"}, {"k": "text", "s": "v2"}]}
     if k == "meta":
         return {"k": "meta"}
+    if k.startswith("inst_"):
+        return {"k": "inst", "has": {"inst_repr": "repr", "inst_tagify": "tagify", "inst_none": None}[k]}
     return {"k": k}
 
 
@@ -227,6 +232,14 @@ class Run:
                 expect_exc = ValueError
             elif k in ("obj", "html"):
                 add = [("HTML", vr["s"])]  # kept as HTML (by value: an HTML() is itself self-rendering and is re-wrapped)
+            elif k == "inst":
+                # instances of ONE class; what each is depends on the methods the instance itself carries
+                if vr["has"] == "repr":
+                    add = [("HTML", "<i>dyn</i>")]
+                elif vr["has"] == "tagify":
+                    add = [v]
+                else:
+                    expect_exc = TypeError
             elif k == "bad":
                 expect_exc = TypeError
             else:  # text, num, tag, list/tuple/taglist, html, dep, meta, tf, tfobj: normal child rules
@@ -464,6 +477,53 @@ def run_default_hook_case(ctx, n_blocks, rng):
     return True
 
 
+def run_copy_case(ctx, rng):
+    """A block on a tag, then a block on a copy of that tag (copy.copy or tagify): either the copy's block is refused
+    (hook intact, nothing collected) or its values go to the copy and only to the copy."""
+    import copy as _c
+
+    real = sys.displayhook
+    rec = Recorder()
+    sys.displayhook = rec
+    ctx.count("monitor.copy_programs")
+    try:
+        t = ht.Tag(rng.choice(["div", "span"]), "pre-existing")
+        with t:
+            sys.displayhook("a")
+        second = _c.copy(t) if rng.random() < 0.5 else t.tagify()
+        before_t = list(t.children)
+        before_2 = list(second.children)
+        try:
+            with second:
+                sys.displayhook("b")
+                if rng.random() < 0.5:
+                    sys.displayhook(ht.Tag("i", "c"))
+            refused = False
+        except RuntimeError:
+            refused = True
+        if sys.displayhook is not rec:
+            ctx.violation("hook-not-restored", "after a block on a copy of a finished tag sys.displayhook is not the outer hook", {"refused": refused})
+            return False
+        if list(t.children) != before_t:
+            ctx.violation("displayed-value-went-to-another-tag", "values displayed in the block of a COPY were appended to the original tag", {"refused": refused})
+            return False
+        if refused:
+            if list(second.children) != before_2:
+                ctx.violation("block-children-differ", "a refused block still collected values", {})
+                return False
+        else:
+            got = [str(x) for x in second.children[len(before_2):]]
+            if not got or got[0] != "b":
+                ctx.violation("block-children-differ", "values displayed in the copy's block are not its children: %r" % got, {})
+                return False
+            if rec.delivered[-1] is not second:
+                ctx.violation("delivery-missing", "the copy was not handed to the enclosing hook", {})
+                return False
+    finally:
+        sys.displayhook = real
+    return True
+
+
 def replay(ctx, w):
     if "program" not in w:
         return
@@ -505,6 +565,7 @@ def run(ctx):
         ctx.state("skeleton_shapes", (min(depth_of(prog), 4), min(N, 10)))
     for _ in range(ctx.budget(40, 4000)):
         ctx.guard(run_default_hook_case, ctx, rng.randint(1, 3), rng, witness={"what": "default hook"})
+        ctx.guard(run_copy_case, ctx, rng, witness={"what": "block on a copy of a finished tag"})
     ctx.count("skeletons", skel)
     ctx.exhaustive["every_statement_position_of_every_generated_skeleton"] = True
     ctx.sample({"program": fixed[0], "inject_at": 2})
